@@ -343,9 +343,48 @@ func rewriteFile(p *packages.Package, f *ast.File, simrtPath string) bool {
 		switch n := c.Node().(type) {
 		case *ast.GoStmt:
 			add("R5", fset, n.Pos(), "go statement")
+		case *ast.SelectStmt:
+			add("R5", fset, n.Pos(), "select statement (channel operations inside are not simulated)")
+			return false
+		case *ast.SendStmt:
+			s := add("R1", fset, n.Pos(), "chan send")
+			c.Replace(&ast.ExprStmt{X: simCall("ChanSend", n.Chan, n.Value, lit(s))})
+			changed = true
+			return true
+		case *ast.AssignStmt:
+			if len(n.Lhs) == 2 && len(n.Rhs) == 1 {
+				if u, ok := ast.Unparen(n.Rhs[0]).(*ast.UnaryExpr); ok && u.Op == token.ARROW {
+					s := add("R1", fset, u.Pos(), "chan receive (v, ok)")
+					n.Rhs[0] = simCall("ChanRecv2", u.X, lit(s))
+					changed = true
+				}
+			}
+		case *ast.ValueSpec:
+			if len(n.Names) == 2 && len(n.Values) == 1 {
+				if u, ok := ast.Unparen(n.Values[0]).(*ast.UnaryExpr); ok && u.Op == token.ARROW {
+					s := add("R1", fset, u.Pos(), "chan receive (v, ok)")
+					n.Values[0] = simCall("ChanRecv2", u.X, lit(s))
+					changed = true
+				}
+			}
+		case *ast.UnaryExpr:
+			if n.Op == token.ARROW {
+				if t := info.TypeOf(n.X); t != nil {
+					if _, ok := t.Underlying().(*types.Chan); ok {
+						s := add("R1", fset, n.Pos(), "chan receive")
+						c.Replace(simCall("ChanRecv1", n.X, lit(s)))
+						changed = true
+						return true
+					}
+				}
+			}
 		case *ast.RangeStmt:
 			t := info.TypeOf(n.X)
 			if t == nil {
+				return true
+			}
+			if _, isChan := t.Underlying().(*types.Chan); isChan {
+				add("R5", fset, n.Pos(), "range over channel (not simulated)")
 				return true
 			}
 			if _, ok := t.Underlying().(*types.Map); !ok {
@@ -387,6 +426,15 @@ func rewriteFile(p *packages.Package, f *ast.File, simrtPath string) bool {
 			c.Replace(loop)
 			changed = true
 		case *ast.CallExpr:
+			if id, ok := ast.Unparen(n.Fun).(*ast.Ident); ok && id.Name == "close" && len(n.Args) == 1 {
+				if _, isBuiltin := info.Uses[id].(*types.Builtin); isBuiltin {
+					s := add("R1", fset, n.Pos(), "chan close")
+					n.Fun = &ast.SelectorExpr{X: ast.NewIdent("simrt"), Sel: ast.NewIdent("ChanClose")}
+					n.Args = append(n.Args, lit(s))
+					changed = true
+					return true
+				}
+			}
 			fn := calleeFunc(info, n)
 			if fn == nil || fn.Pkg() == nil {
 				return true
